@@ -175,6 +175,13 @@ class Exporter:
             return "call:%s(%s)" % (e[2].npath, ",".join(self.path_of(a) for a in e[3][:1]))
         if k == "const":
             return "const:%s" % e[1]
+        if k == "binop" and e[1] == "BitOr":
+            # `field | CONST` writes the field with bits added (the IPFIX enterprise bit put back on export): every
+            # bit the decoded field holds is emitted - OR cannot drop one
+            sides = [peel(e[2]), peel(e[3])]
+            nonconst = [x for x in sides if x[0] != "const"]
+            if len(nonconst) == 1:
+                return self.path_of(nonconst[0], iterating)
         return "?%s" % k
 
     def owner_of(self, e):
@@ -189,6 +196,14 @@ class Exporter:
             return (e[3], e[2])
         if e[0] == "some":
             return self.owner_of(e[1])
+        if e[0] == "phi":
+            os_ = set(self.owner_of(x) for x in e[1])
+            if len(os_) == 1:
+                return os_.pop()
+        if e[0] == "binop" and e[1] == "BitOr":
+            nonconst = [x for x in (peel(e[2]), peel(e[3])) if x[0] != "const"]
+            if len(nonconst) == 1:
+                return self.owner_of(nonconst[0])
         if e[0] == "tfield":
             return self.owner_of(e[1])
         return (None, None)
